@@ -105,7 +105,8 @@ impl<K: AsRef<[u8]>, V> VecMap<K, V> {
         let mut i = 0;
         while i < CAP {
             if self.entries[i].is_none() {
-                self.entries[i] = Some(Box::new((k, v)));
+                // the slot is empty: write without running (recursive) drop glue on it
+                unsafe { std::ptr::write(&mut self.entries[i], Some(Box::new((k, v)))) };
                 return;
             }
             i += 1;
@@ -188,7 +189,7 @@ impl<K: AsRef<[u8]>> VecSet<K> {
         let mut i = 0;
         while i < CAP {
             if self.entries[i].is_none() {
-                self.entries[i] = Some(k);
+                unsafe { std::ptr::write(&mut self.entries[i], Some(k)) };
                 return true;
             }
             i += 1;
